@@ -106,3 +106,6 @@ Definition run_history (c : hcase) : string :=
   | Some ps =>
       join "," (map (fun q => show_res show_bool (decide (fits (rxof_table (h_table c)) (h_ck c)) ps q)) (h_inqs c))
   end.
+
+(* several fits calls answered by one checker instance (the model has no state: each is answered alone) *)
+Definition run_fits_seq (l : list fcase) : string := join "," (map run_fits l).
